@@ -75,7 +75,7 @@ type case = {
   hashf : EI.src -> BinNums.coq_N;
 }
 
-let is_src_op = function "a" | "d" | "f" | "e" | "o" | "oc" -> true | _ -> false
+let is_src_op = function "a" | "d" | "f" | "e" | "o" | "oc" | "z" | "xe" -> true | _ -> false
 
 let parse_case (input : string) : case =
   let toks = L.map S.trim (S.split_on_char ';' input) in
